@@ -146,21 +146,53 @@ def C04_recovers_full : Prop :=
         σ'.node.store.height < (run c σ'.node [r1, r2]).store.height)
 
 /-- witness: two blocks, then a third step … -/
-def wOps : List Op :=
-  [.step (.batch [[1]] 200 []) .ok, .step (.batch [[2]] 300 []) .ok, .step (.batch [[3]] 400 []) .ok]
+def wSteps : List (SeqResp × ExecResp) :=
+  [(.batch [[1]] 200 [], .ok), (.batch [[2]] 300 [], .ok), (.batch [[3]] 400 [], .ok)]
+def wOps : List Op := wSteps.map fun r => .step r.1 r.2
 /-- … that crashes after its 4th write (`setMeta`, early save, final save, `setHeight` | `updateState`) -/
 def wCrash : Op := .crash 4
 def wProbe : SeqResp × ExecResp := (.batch [[4]] 500 [], .ok)
-/-- the restarted node of the witness -/
-def wNode : Node :=
-  match runOps wCfg (initSt wCfg) (wOps ++ [wCrash]) with
-  | .ok σ => σ.node
-  | .error _ => default
 
-/-- the witness crash is the bad cut of a five-write step -/
-example : (match runOps wCfg (initSt wCfg) wOps with
-           | .ok σ => (σ.ws.length, badCut 4 σ.ws)
-           | .error _ => (0, false)) = (5, true) := by decide +kernel
+/-- what the refutation needs to know about the witness history, evaluated once by the kernel: number of writes of
+the third step, whether cut 4 is the bad cut, and of the restarted node: chain height, state height, state time,
+nothing stored above -/
+def wSummary : Option (Nat × Bool × Nat × Nat × Nat × Bool) :=
+  match runOps wCfg (initSt wCfg) wOps with
+  | .error _ => none
+  | .ok σ =>
+    match opStep wCfg σ wCrash with
+    | .error _ => none
+    | .ok σ' => some (σ.ws.length, badCut 4 σ.ws, σ'.node.store.height, σ'.node.lastState.lastHeight,
+                      σ'.node.lastState.lastTime, (σ'.node.store.getBlock (σ'.node.store.height + 1)).isNone)
+
+theorem wSummary_eq : wSummary = some (5, true, 3, 2, 300, true) := by decide +kernel
+
+theorem witness_facts {σ σ' : RunSt} (hr : runOps wCfg (initSt wCfg) wOps = .ok σ) (hop : opStep wCfg σ wCrash = .ok σ') :
+    σ.ws.length = 5 ∧ badCut 4 σ.ws = true ∧ σ'.node.store.height = 3 ∧ σ'.node.lastState.lastHeight = 2 ∧
+    σ'.node.lastState.lastTime = 300 ∧ Wedged σ'.node := by
+  have h := wSummary_eq
+  unfold wSummary at h
+  rw [hr] at h
+  simp only [hop, Option.some.injEq, Prod.mk.injEq] at h
+  obtain ⟨h1, h2, h3, h4, h5, h6⟩ := h
+  refine ⟨h1, h2, h3, h4, h5, by rw [h3, h4], fun pb hpb => ?_⟩
+  rw [hpb] at h6; cases h6
+
+/-- **the witness**: the third step issues five writes, cut 4 is the bad cut; the restart succeeds, but the node it
+returns has chain height 3, state height 2, and is wedged -/
+theorem witness_wedged : ∃ σ σ', runOps wCfg (initSt wCfg) wOps = .ok σ ∧ opStep wCfg σ wCrash = .ok σ' ∧
+    σ.ws.length = 5 ∧ badCut 4 σ.ws = true ∧ σ'.node.store.height = 3 ∧ σ'.node.lastState.lastHeight = 2 ∧
+    Wedged σ'.node := by
+  have h := wSummary_eq
+  unfold wSummary at h
+  split at h
+  · cases h
+  · rename_i σ hr
+    split at h
+    · cases h
+    · rename_i σ' hop
+      obtain ⟨a1, a2, a3, a4, _, a6⟩ := witness_facts hr hop
+      exact ⟨σ, σ', hr, hop, a1, a2, a3, a4, a6⟩
 
 /-- **The full property is false of the current code** (kernel-checked): after a crash between `SetHeight` and
 `UpdateState` the restarted node has chain height 3 and state height 2, and two well-formed answers do not raise the
@@ -168,21 +200,13 @@ height.  Replayed on the real node by stream C04 (`C04/…/crash-after-setheight
 theorem C04_recovers_fails : ¬ C04_recovers_full := by
   intro h
   obtain ⟨σ, σ', hr, hop, _, hlive⟩ := h wCfg wOps wCrash wProbe wProbe (by decide) rfl (by decide) rfl
-  have hrun : runOps wCfg (initSt wCfg) (wOps ++ [wCrash]) = .ok σ' := by
-    rw [runOps_append _ hr]; simp only [runOps, hop]
-  have hn : σ'.node = wNode := by unfold wNode; rw [hrun]
-  rw [hn] at hlive
-  have hwf : WellFormed wNode wProbe := by decide +kernel
-  exact absurd (hlive hwf hwf) (by decide +kernel)
-
-/-- the witness node is wedged: chain height one above the state height (also the `Recovered.inv` clause fails) -/
-theorem witness_wedged : wNode.store.height = 3 ∧ wNode.lastState.lastHeight = 2 ∧ Wedged wNode := by
-  have h1 : wNode.store.height = 3 := by decide +kernel
-  have h2 : wNode.lastState.lastHeight = 2 := by decide +kernel
-  have h3 : wNode.store.getBlock 4 = none := by decide +kernel
-  refine ⟨h1, h2, by rw [h1, h2], ?_⟩
-  intro pb hpb
-  rw [h1, h3] at hpb; cases hpb
+  obtain ⟨_, _, _, _, ht, hw⟩ := witness_facts hr hop
+  have hwf : WellFormed σ'.node wProbe := by
+    show σ'.node.lastState.lastTime ≤ 500
+    omega
+  have := hlive hwf hwf
+  rw [(run_wedged hw _).2] at this
+  exact Nat.lt_irrefl _ this
 
 /-- **Permanently**: a node whose recorded chain height is one above its state height never commits a block again —
 for every sequence of answers the outcome of every step is an error, and height and state stay what they are. -/
@@ -241,37 +265,46 @@ theorem C04_cache_partial {c : Cfg} {d : Store} (hd : DInv c d) (files : List Ca
 
 /-! ## non-vacuity -/
 
-/-- a history with a (harmless) crash after the early save of the third block, a crash during the restart, and a
-further step: its hypotheses hold … -/
+/-- a history with a (harmless) crash after the early save of the third block, a crash during the restart, a
+further step, a crash between two operations, and one more step: the hypotheses of `C04_recovers_partial` hold
+and it ends with three committed blocks on a restarted node -/
 def gOps : List Op := wOps ++ [.crash 2, .crash 0, .step (.batch [[5]] 600 []) .ok, .crash 7]
 
-example : NoBadCut wCfg (initSt wCfg) (gOps ++ [.step (.batch [[6]] 700 []) .ok]) := by decide +kernel
+example : NoBadCut wCfg (initSt wCfg) (gOps ++ [.step (.batch [[6]] 700 []) .ok]) ∧
+    (match runOps wCfg (initSt wCfg) gOps with
+     | .ok σ => some (σ.node.store.height, σ.node.lastState.lastHeight)
+     | .error _ => none) = some (3, 3) := by decide +kernel
 
-/-- … and it ends with three committed blocks on a restarted node -/
-example : (match runOps wCfg (initSt wCfg) gOps with
-           | .ok σ => some (σ.node.store.height, σ.node.lastState.lastHeight)
-           | .error _ => none) = some (3, 3) := by decide +kernel
-
-/-- a concrete node with two committed blocks meets the hypotheses of (b), (c), (d) -/
-example : ∃ σ, runOps wCfg (initSt wCfg) (wOps.take 2) = .ok σ ∧ σ.node.store.height = 2 ∧
-    Inv wCfg σ.node ∧ Synced wCfg σ.node ∧ WmOK σ.node.store ∧ DInv wCfg σ.node.store := by
-  obtain ⟨σ, hr, hg, _⟩ := runOps_good (good_init wCfg (by decide)) (wOps.take 2) (by decide +kernel)
-  refine ⟨σ, hr, ?_, hg.inv, hg.synced, hg.wm, dinv_of_node hg.inv hg.synced hg.wm⟩
+/-- a concrete node with two committed blocks (the witness before its third step) -/
+theorem two_blocks : ∃ σ, runOps wCfg (initSt wCfg) (wOps.take 2) = .ok σ ∧ Good wCfg σ ∧
+    σ.node.store.height = 2 ∧ σ.node.store.getBlock 3 = none ∧ σ.node.lastState.lastTime = 300 := by
+  obtain ⟨σ, hr, hg, _⟩ := runOps_good (good_init wCfg (by decide)) (wOps.take 2) (noBadCut_steps _ _ (wSteps.take 2))
   have : (match runOps wCfg (initSt wCfg) (wOps.take 2) with
-          | .ok σ => σ.node.store.height
-          | .error _ => 0) = 2 := by decide +kernel
-  rw [hr] at this; exact this
-
-/-- the hypotheses of `badcut_always_wedges` are met by the witness (third step of `wOps`) -/
-example : ∃ σ, runOps wCfg (initSt wCfg) (wOps.take 2) = .ok σ ∧ σ.node.store.state = some σ.node.lastState ∧
-    (publish wCfg σ.node (.batch [[3]] 400 []) .ok).2.2 = .ok := by
-  have : (match runOps wCfg (initSt wCfg) (wOps.take 2) with
-          | .ok σ => decide (σ.node.store.state = some σ.node.lastState) &&
-                     decide ((publish wCfg σ.node (.batch [[3]] 400 []) .ok).2.2 = .ok)
-          | .error _ => false) = true := by decide +kernel
-  obtain ⟨σ, hr, _, _⟩ := runOps_good (good_init wCfg (by decide)) (wOps.take 2) (by decide +kernel)
+          | .ok σ => (σ.node.store.height, (σ.node.store.getBlock 3).isNone, σ.node.lastState.lastTime)
+          | .error _ => (0, false, 0)) = (2, true, 300) := by decide +kernel
   rw [hr] at this
-  simp only [Bool.and_eq_true, decide_eq_true_eq] at this
-  exact ⟨σ, hr, this.1, this.2⟩
+  simp only [Prod.mk.injEq] at this
+  refine ⟨σ, hr, hg, this.1, ?_, this.2.2⟩
+  cases h : σ.node.store.getBlock 3 with
+  | none => rfl
+  | some b => rw [h] at this; simp at this
+
+/-- it meets the hypotheses of (b), (c), (d) … -/
+example : ∃ n, n.store.height = 2 ∧ Inv wCfg n ∧ Synced wCfg n ∧ WmOK n.store ∧ DInv wCfg n.store := by
+  obtain ⟨σ, _, hg, hh, _⟩ := two_blocks
+  exact ⟨σ.node, hh, hg.inv, hg.synced, hg.wm, dinv_of_node hg.inv hg.synced hg.wm⟩
+
+/-- … and those of `badcut_always_wedges` -/
+example : ∃ n, Inv wCfg n ∧ n.store.state = some n.lastState ∧ wCfg.initialHeight ≤ n.lastState.lastHeight ∧
+    WmOK n.store ∧ (publish wCfg n (.batch [[3]] 400 []) .ok).2.2 = .ok := by
+  obtain ⟨σ, _, hg, hh, hnone, ht⟩ := two_blocks
+  obtain ⟨s1, s2⟩ := synced_some hg.inv hg.synced (by rw [hh]; decide)
+  refine ⟨σ.node, hg.inv, s1, s2, hg.wm, ?_⟩
+  exact (fresh_commits hg.inv (by rw [hh]; exact hnone) rfl rfl (by decide) [[3]] 400 [] (by omega)).1
+
+/-- a wedged node exists (the witness), so `wedged_forever` is not vacuous -/
+example : ∃ n : Node, Wedged n := by
+  obtain ⟨_, σ', _, _, _, _, _, _, hw⟩ := witness_wedged
+  exact ⟨σ'.node, hw⟩
 
 end Spec.C04
